@@ -117,6 +117,8 @@ def universes_c17():
         E("xi14", "B", 1, 16, [["expiration", "vi14"]], exp=["n", 14]),
         E("xneg", "B", 1, 17, [["expiration", "vneg"]], exp=["bad"]),
     ]
+    # few events, longer behaviours: an event that was collected and is then submitted again must be collected again
+    us["regc"] = [E("n1", "A", 1, 10), E("x14", "A", 1, 11, [["expiration", "t14"]]), E("x16", "A", 1, 13, [["expiration", "t16"]])]
     return us
 
 
@@ -321,6 +323,8 @@ def with_lookups(script, uni):
             for s in seen:
                 out.append(("http", s))
                 out.append(("get", s))
+                out.append(("http", s, "upper"))      # the same id spelled with upper-case digits
+                out.append(("get", s, "upper"))
     return tuple(out)
 
 
@@ -384,6 +388,8 @@ def run(prop, tier, seed, backends=BACKENDS, only_universe=None):
     rnd = random.Random(seed)
     design = tlc.DesignCheck([("MC_Store", "MC_Store_%s.cfg" % b, "Store/" + b) for b in backends], workers=3, timeout=1800)
     depth = {"quick": 3, "thorough": 4}[tier]
+    depth_of = {"regc": {"quick": 4, "thorough": 6}[tier]}
+    cap_of = {"regc": {"quick": 1300, "thorough": 6000}[tier]}
     if prop in ("C03", "C04"):
         depth = {"quick": 1, "thorough": 2}[tier]     # every variant on its own (and pairs): the quantifier is over inputs
         depth_of = {"twins": {"quick": 3, "thorough": 4}[tier], "verbatim": 2}
@@ -397,7 +403,7 @@ def run(prop, tier, seed, backends=BACKENDS, only_universe=None):
         uni = Universe(descs, palette=PALETTE_OF.get(uname, "plain"), symtab=SYMTABS.get(uname))
         for backend in backends:
             for drain_each in ([True] if backend == "sql" else [True, False]):
-                d0 = depth_of.get(uname, depth) if prop in ("C03", "C04") else depth
+                d0 = depth_of.get(uname, depth)
                 d = d0 if drain_each else d0 + 1
                 if len(descs) > 9 and not drain_each:
                     d = d0
@@ -412,9 +418,9 @@ def run(prop, tier, seed, backends=BACKENDS, only_universe=None):
         out.add_model(gstats)
         scripts = sorted(scripts)
         cf["generated"] = len(scripts)
-        if len(scripts) > cap:
+        if len(scripts) > cap_of.get(cf["uname"], cap):
             rnd.shuffle(scripts)
-            scripts = scripts[:cap]
+            scripts = scripts[:cap_of.get(cf["uname"], cap)]
         probes = tuple(final_probes(cf["uni"], prop))
         cf["stimuli"] = scripts
         cf["scripts"] = [with_lookups(sc, cf["uni"]) + probes for sc in scripts]
@@ -464,7 +470,7 @@ def run(prop, tier, seed, backends=BACKENDS, only_universe=None):
                        "LMDBStorage(liblmdb); a case is a (universe, backend, script); non-trivial = the run exercised the "
                        "property's antecedent (%s)" % (depth, len(UNIVERSES[prop]()), cap, _RULE[prop]))
     out.cov["samples"] = samples or [{"note": "no sample selected"}]
-    out.cov["exhaustive"] = all(cf["generated"] <= cap for cf in configs)
+    out.cov["exhaustive"] = all(cf["generated"] <= cap_of.get(cf["uname"], cap) for cf in configs)
     out.notes["behaviours_generated_per_config"] = {"%s/%s/%s" % (cf["uname"], cf["backend"], "seq" if cf["drain_each"] else "lag"):
                                                     cf["generated"] for cf in configs}
     out.notes["violations_of_other_properties_seen"] = other
